@@ -92,6 +92,7 @@ def run(ctx: Ctx):
     n += rc.run_format(ctx, rt, "C07", "aif", None)
     rc.r_branch_canon(ctx, rt, "C07")
     rc.r_model_state(ctx, rt, "C07")
+    rc.r_column_order(ctx, rt, "C07")      # a re-imported table arrives with a branch column: the stored layout must not depend on that
     r_refuse(ctx, rt)
     r_cast(ctx, rt)
     # AIF: every data loop of the exported document carries exactly one rounding, to the documented precision (read off the
